@@ -72,3 +72,53 @@ Print Assumptions engine_protocol_ok.
 Print Assumptions end_idempotent.
 Print Assumptions send_while_pending_refused.
 Print Assumptions delete_inflight_refuted.
+
+(* ---------- structural updates around a parallel process ---------- *)
+(* reading the schema, asking is_step() and moving the node never fail and change nothing, whatever the state -
+   in particular while an update is in flight *)
+Theorem quiet_step s c : quiet c = true -> pstep s c = inl s.
+Proof. destruct c; cbn; intros H; try discriminate; reflexivity. Qed.
+
+Theorem quiet_run cs : forall s, forallb quiet cs = true -> prun s cs = inl s.
+Proof.
+  induction cs as [|c r IH]; intros s H; [reflexivity|].
+  cbn in H. apply andb_prop in H. destruct H as [Hc Hr].
+  cbn [prun]. rewrite (quiet_step s c Hc). apply IH. exact Hr.
+Qed.
+
+(* hence they can be interleaved anywhere into the life of the process without changing it *)
+Theorem quiet_insert a q b s : forallb quiet q = true -> prun s (a ++ q ++ b) = prun s (a ++ b).
+Proof.
+  intros Hq. rewrite (prun_app s a (q ++ b)), (prun_app s a b). destruct (prun s a) as [s'|e]; [|reflexivity].
+  rewrite prun_app, (quiet_run q s' Hq). reflexivity.
+Qed.
+
+(* the engine's trace with a structural update while the update is in flight, in every round *)
+Theorem engine_protocol_struct_ok rounds ends q : (0 < ends)%nat -> forallb quiet q = true ->
+  exists s', prun fresh (concat (repeat ([CSend] ++ q ++ [CGet]) rounds) ++ repeat CEnd ends) = inl s' /\
+             alive s' = false /\ ended s' = true.
+Proof.
+  intros He Hq.
+  assert (Hr : forall n s, pending s = false -> ended s = false ->
+                 prun s (concat (repeat ([CSend] ++ q ++ [CGet]) n)) = inl s).
+  { induction n as [|n IH]; intros s Hp Hen; [reflexivity|].
+    cbn [repeat concat]. rewrite prun_app.
+    replace (prun s ([CSend] ++ q ++ [CGet])) with (prun s ([CSend] ++ [CGet])) by (symmetry; apply quiet_insert; exact Hq).
+    cbn. rewrite Hp, Hen. cbn. destruct s as [p e a]; cbn in *; subst. apply IH; reflexivity. }
+  rewrite prun_app, (Hr rounds fresh eq_refl eq_refl).
+  destruct (ends_ok ends fresh eq_refl He) as [s' [H1 [H2 H3]]]. exists s'. auto.
+Qed.
+
+(* the pinned code on the same traces *)
+Theorem query_in_flight_refuted_pinned : prun_pinned fresh [CSend; CQuery; CGet] = inr StillPending.
+Proof. reflexivity. Qed.
+Theorem move_ends_worker_refuted_pinned : prun_pinned fresh [CSend; CGet; CMoved; CSend] = inr Ended.
+Proof. reflexivity. Qed.
+Example current_code_same_traces :
+  prun fresh [CSend; CQuery; CGet] = inl fresh /\ exists s, prun fresh [CSend; CGet; CMoved; CSend] = inl s.
+Proof. split; [reflexivity|eexists; reflexivity]. Qed.
+
+Print Assumptions engine_protocol_struct_ok.
+Print Assumptions quiet_insert.
+Print Assumptions query_in_flight_refuted_pinned.
+Print Assumptions move_ends_worker_refuted_pinned.
